@@ -8,55 +8,59 @@ use crate::verif_kani::c08_prime::*;
 // factor is the constant P-1 (largest element), the first factors are symbolic: the products
 // reach the maximum (P-1)^2 without any symbolic-by-symbolic multiplier, and the number of
 // accumulated products n is SYMBOLIC in 0..=130 (crosses the reduce interval twice).
-harness! {
-    #[kani::unwind(132)]
-    fn q08_accumulator_scalar_fp61() {
-        let x0: u64 = kani::any();
-        let x1: u64 = kani::any();
-        kani::assume(u128::from(x0) < P61 && u128::from(x1) < P61);
-        let y = mk61((P61 - 1) as u64);
-        let n: usize = kani::any();
-        kani::assume(n <= 130);
-        let mut acc = <Fp61BitPrime as MultiplyAccumulate>::Accumulator::new();
-        let mut sum = Fp61BitPrime::ZERO;
-        let mut i = 0;
-        while i < n {
-            let x = if i % 2 == 0 { mk61(x0) } else { mk61(x1) };
-            acc.multiply_accumulate(x, y);
-            sum += x * y;
-            i += 1;
+macro_rules! accumulate {
+    ($scalar:ident, $array:ident, $n:expr, $unw:literal) => {
+        harness! {
+            #[kani::unwind($unw)]
+            #[kani::solver(z3)]
+            fn $scalar() {
+                let x0: u64 = kani::any();
+                let x1: u64 = kani::any();
+                kani::assume(u128::from(x0) < P61 && u128::from(x1) < P61);
+                let y = mk61((P61 - 1) as u64);
+                let mut acc = <Fp61BitPrime as MultiplyAccumulate>::Accumulator::new();
+                let mut sum = Fp61BitPrime::ZERO;
+                let mut i = 0;
+                while i < $n {
+                    let x = if i % 2 == 0 { mk61(x0) } else { mk61(x1) };
+                    acc.multiply_accumulate(x, y);
+                    sum += x * y;
+                    i += 1;
+                }
+                assert!(rd61(acc.take()) == rd61(sum), "accumulate-then-take == fold of plain field ops");
+                kani::cover!(x0 == (P61 - 1) as u64 && x1 == (P61 - 1) as u64);
+            }
         }
-        assert!(rd61(acc.take()) == rd61(sum), "accumulate-then-take == fold of plain field ops");
-        kani::cover!(n == 130 && x0 == (P61 - 1) as u64 && x1 == (P61 - 1) as u64);
-        kani::cover!(true);
-    }
-}
-
-harness! {
-    #[kani::unwind(132)]
-    fn q08_accumulator_array_fp61() {
-        let x0: u64 = kani::any();
-        let x1: u64 = kani::any();
-        kani::assume(u128::from(x0) < P61 && u128::from(x1) < P61);
-        let y = mk61((P61 - 1) as u64);
-        let n: usize = kani::any();
-        kani::assume(n <= 130);
-        let mut acc = <Fp61BitPrime as MultiplyAccumulate>::AccumulatorArray::<2>::new();
-        let mut sum = [Fp61BitPrime::ZERO; 2];
-        let mut i = 0;
-        while i < n {
-            let x = [mk61(x0), mk61(x1)];
-            acc.multiply_accumulate(&x, &[y, y]);
-            sum[0] += x[0] * y;
-            sum[1] += x[1] * y;
-            i += 1;
+        harness! {
+            #[kani::unwind($unw)]
+            #[kani::solver(z3)]
+            fn $array() {
+                let x0: u64 = kani::any();
+                let x1: u64 = kani::any();
+                kani::assume(u128::from(x0) < P61 && u128::from(x1) < P61);
+                let y = mk61((P61 - 1) as u64);
+                let mut acc = <Fp61BitPrime as MultiplyAccumulate>::AccumulatorArray::<2>::new();
+                let mut sum = [Fp61BitPrime::ZERO; 2];
+                let mut i = 0;
+                while i < $n {
+                    let x = [mk61(x0), mk61(x1)];
+                    acc.multiply_accumulate(&x, &[y, y]);
+                    sum[0] += x[0] * y;
+                    sum[1] += x[1] * y;
+                    i += 1;
+                }
+                let t = acc.take();
+                assert!(rd61(t[0]) == rd61(sum[0]) && rd61(t[1]) == rd61(sum[1]), "array accumulate == fold of plain field ops");
+                kani::cover!(x0 == (P61 - 1) as u64);
+            }
         }
-        let t = acc.take();
-        assert!(rd61(t[0]) == rd61(sum[0]) && rd61(t[1]) == rd61(sum[1]), "array accumulate == fold of plain field ops");
-        kani::cover!(n == 130 && x0 == (P61 - 1) as u64);
-        kani::cover!(true);
-    }
+    };
 }
+// number of accumulated products instantiated around the reduce interval (64)
+accumulate!(x08_accumulator_scalar_n64, x08_accumulator_array_n64, 64, 66);
+accumulate!(x08_accumulator_scalar_n65, x08_accumulator_array_n65, 65, 67);
+accumulate!(x08_accumulator_scalar_n129, x08_accumulator_array_n129, 129, 131);
+accumulate!(t08_accumulator_scalar_n1, t08_accumulator_array_n1, 1, 3);
 
 harness! {
     #[kani::unwind(12)]
